@@ -69,6 +69,7 @@ type pkgSpec struct {
 
 var specs = []pkgSpec{
 	{"/repo", "./internal/counter", []string{"sync/atomic", "sync", "os", "os.File", "golang.org/x/telemetry/internal/mmap"}},
+	{"/repo", "./internal/upload", []string{"os", "os.File", "net/http", "crypto/rand", "golang.org/x/telemetry/internal/configstore"}},
 	{"/repo", "./internal/telemetry", []string{"os"}},
 }
 
